@@ -45,9 +45,9 @@ type seqArgs struct {
 }
 
 func (prop) Plan(tier string, seed int64) []core.Batch {
-	n := 6
+	n := 12
 	if tier == "thorough" {
-		n = 60
+		n = 120
 	}
 	var bs []core.Batch
 	for i := 0; i < n; i++ {
